@@ -382,7 +382,7 @@ def save_summary(pkg: Package, fi: FunctionInfo) -> Optional[Tuple[str, str]]:
     """(file parameter, saved-and-returned local) when the function writes the object it returns to a file named by a parameter"""
     params = set(fi.params)
     rets = [r.value for r in ast.walk(fi.node) if isinstance(r, ast.Return) and r.value is not None]
-    ret_names = {r.id for r in rets if isinstance(r, ast.Name)}
+    ret_names = {r.id for r in rets if isinstance(r, ast.Name)} | {e.id for r in rets if isinstance(r, ast.Tuple) for e in r.elts if isinstance(e, ast.Name)}
     for c in ast.walk(fi.node):
         if not isinstance(c, ast.Call) or not isinstance(c.func, ast.Attribute):
             continue
@@ -403,12 +403,13 @@ def savefwd_pass(run: Run, pkg: Package, funcs: List[FunctionInfo]) -> int:
     n = 0
     for fi in funcs:
         params = set(fi.params)
+        par = parents_map(fi.node)
         body = list(ast.walk(fi.node))
-        for s in body:
-            if not (isinstance(s, ast.Assign) and len(s.targets) == 1 and isinstance(s.targets[0], ast.Name) and isinstance(s.value, ast.Call)):
+        for call in body:
+            if not isinstance(call, ast.Call):
                 continue
-            callee = resolve_callee(pkg, fi, s.value)
-            if callee is None:
+            callee = resolve_callee(pkg, fi, call)
+            if callee is None or callee is fi:
                 continue
             summ = save_summary(pkg, callee)
             if summ is None:
@@ -416,39 +417,62 @@ def savefwd_pass(run: Run, pkg: Package, funcs: List[FunctionInfo]) -> int:
             fparam, _ = summ
             cps = [p for p in callee.params if p not in ("self", "cls")]
             arg = None
-            for k in s.value.keywords:
+            for k in call.keywords:
                 if k.arg == fparam:
                     arg = k.value
-            if arg is None and fparam in cps and cps.index(fparam) < len(s.value.args):
-                arg = s.value.args[cps.index(fparam)]
+            if arg is None and fparam in cps and cps.index(fparam) < len(call.args):
+                arg = call.args[cps.index(fparam)]
             if arg is None:
                 continue
             n += 1
             if not any(isinstance(m, ast.Name) and m.id in params for m in ast.walk(arg)):
                 continue            # a constant / empty name: nothing of the caller's is written
-            r = s.targets[0].id
-            changed = None
-            for t in body:
-                if getattr(t, "lineno", 0) <= s.lineno:
-                    continue
-                if isinstance(t, ast.AugAssign) and ((isinstance(t.target, ast.Name) and t.target.id == r) or
-                                                      (isinstance(t.target, (ast.Subscript, ast.Attribute)) and r in {m.id for m in ast.walk(t.target) if isinstance(m, ast.Name)})):
-                    changed = t
-                elif isinstance(t, ast.Assign) and any((isinstance(x, ast.Name) and x.id == r) or
-                                                         (isinstance(x, ast.Subscript) and isinstance(x.value, ast.Name) and x.value.id == r) for x in t.targets):
-                    changed = t
-                if changed is not None:
-                    break
-            if changed is None:
+            stmt = _stmt_of(call, par)
+            why = None
+            loc_node = call
+            if isinstance(stmt, ast.Return) and stmt.value is call:
+                continue            # return g(..., outputfile): the file holds exactly what is returned
+            in_loop = enclosing_loops(call, par, fi.node) or any(isinstance(a, (ast.ListComp, ast.GeneratorExp, ast.SetComp, ast.DictComp)) for a in _ancestors(call, par, fi.node))
+            loopvars = set()
+            for a in _ancestors(call, par, fi.node):
+                if isinstance(a, ast.For):
+                    loopvars |= {m.id for m in ast.walk(a.target) if isinstance(m, ast.Name)}
+                elif isinstance(a, (ast.ListComp, ast.GeneratorExp, ast.SetComp, ast.DictComp)):
+                    loopvars |= {m.id for g in a.generators for m in ast.walk(g.target) if isinstance(m, ast.Name)}
+            if in_loop and loopvars & {m.id for m in ast.walk(arg) if isinstance(m, ast.Name)}:
+                continue            # a different file per iteration
+            if in_loop:
+                why = f"the call sits in a loop / comprehension: every iteration rewrites the same file, and what {fi.name} returns is assembled afterwards"
+            elif isinstance(stmt, ast.Assign) and len(stmt.targets) == 1 and isinstance(stmt.targets[0], ast.Name) and stmt.value is call:
+                r = stmt.targets[0].id
+                changed = None
+                for t in body:
+                    if getattr(t, "lineno", 0) <= stmt.lineno:
+                        continue
+                    if isinstance(t, ast.AugAssign) and ((isinstance(t.target, ast.Name) and t.target.id == r) or
+                                                          (isinstance(t.target, (ast.Subscript, ast.Attribute)) and r in {m.id for m in ast.walk(t.target) if isinstance(m, ast.Name)})):
+                        changed = t
+                    elif isinstance(t, ast.Assign) and any((isinstance(x, ast.Name) and x.id == r) or
+                                                             (isinstance(x, ast.Subscript) and isinstance(x.value, ast.Name) and x.value.id == r) for x in t.targets):
+                        changed = t
+                    if changed is not None:
+                        break
+                rets = [x for x in body if isinstance(x, ast.Return) and x.value is not None and x.lineno > stmt.lineno]
+                if changed is not None and any(r in {m.id for m in ast.walk(x.value) if isinstance(m, ast.Name)} and x.lineno > changed.lineno for x in rets):
+                    why = f"{fi.name} then changes that result [{norm_stmt(changed)[:80]}] before returning it"
+                    loc_node = changed
+                elif rets and not any((isinstance(x.value, ast.Name) and x.value.id == r) or
+                                      (isinstance(x.value, ast.Tuple) and any(isinstance(e, ast.Name) and e.id == r for e in x.value.elts)) for x in rets):
+                    why = f"{fi.name} returns {ast.unparse(rets[-1].value)[:60]}, not the value the callee wrote"
+                    loc_node = rets[-1]
+            else:
                 continue
-            returned = any(isinstance(x, ast.Return) and x.value is not None and r in {m.id for m in ast.walk(x.value) if isinstance(m, ast.Name)}
-                           and x.lineno > changed.lineno for x in body)
-            if not returned:
+            if why is None:
                 continue
             run.ob("R-SAVE-FWD", short(fi.qual), f"{short(callee.qual)}:{fparam}", False,
                    "a file written on behalf of a call holds the values that call returns",
-                   f"{short(callee.qual)} writes its result to the file named by {ast.unparse(arg)[:60]}; {fi.name} then changes that result [{norm_stmt(changed)[:80]}] before returning it",
-                   witness=f"any call of {fi.name} with an output file: the file holds the callee's value, the call returns the changed one", loc=fi.loc(changed), sound=True)
+                   f"{short(callee.qual)} writes its own result to the file named by {ast.unparse(arg)[:60]}; {why}",
+                   witness=f"any call of {fi.name} with an output file: the file holds a value of the callee, the call returns another one", loc=fi.loc(loc_node), sound=True)
     return n
 
 
